@@ -176,7 +176,12 @@ func (r *Run) Violation(fingerprint, what string, witness any) bool {
 		if f.Property != r.ID || f.Status != "known" {
 			continue
 		}
-		if ok, _ := path.Match(f.Fingerprint, fingerprint); ok || f.Fingerprint == fingerprint {
+		ok, _ := path.Match(f.Fingerprint, fingerprint)
+		// a pattern ending in '*' also matches as a prefix (fingerprints may contain '/' after that point)
+		if n := len(f.Fingerprint); !ok && n > 1 && f.Fingerprint[n-1] == '*' && len(fingerprint) >= n-1 && fingerprint[:n-1] == f.Fingerprint[:n-1] {
+			ok = true
+		}
+		if ok || f.Fingerprint == fingerprint {
 			if r.known[f.Fingerprint] == 0 {
 				fmt.Printf("KNOWN-FINDING: property=%s %s [%s]\n", r.ID, f.What, f.Fingerprint)
 			}
